@@ -24,7 +24,8 @@ NDims == Len(DimSeq)
 \* host:     Host header: loopback spelling, other, look-alike of a loopback name, empty
 \* ctype:    Content-Type: application/json, with parameters / other case, another type, absent, unparsable
 \* accept:   Accept: admits both json and event-stream (literally / by wildcard), only one, neither, absent
-\* body:     well-formed message, the same padded to exactly the limit, empty, padded beyond the limit, not a JSON-RPC message
+\* body:     well-formed message, the same padded to exactly the limit, empty, padded beyond the limit, not a JSON-RPC message,
+\*           a well-formed message followed by further non-blank bytes (not a JSON text: RFC 8259 allows only one value)
 \* vhdr:     Mcp-Protocol-Version header: absent, supported legacy, unsupported (older), 2026-07-28, unsupported (later)
 \* meta:     _meta protocolVersion in the body: absent, equal to the header, different and >= 2026-07-28, different and legacy
 \* mm/mn/mp: Mcp-Method / Mcp-Name / Mcp-Param-Region header against the body value
@@ -36,8 +37,8 @@ Vals(kind, d) ==
     [] d = "ctype"    -> {"json", "jsonparams", "other", "missing", "malformed"}
     [] d = "accept"   -> IF kind = "sse" THEN {"missing", "both", "other"}
                          ELSE {"both", "wild", "jsononly", "sseonly", "other", "missing"}
-    [] d = "body"     -> IF kind = "sse" THEN {"ok", "empty", "malformed"}
-                         ELSE {"ok", "atlimit", "empty", "oversize", "malformed"}
+    [] d = "body"     -> IF kind = "sse" THEN {"ok", "empty", "malformed", "trailing"}
+                         ELSE {"ok", "atlimit", "empty", "oversize", "malformed", "trailing"}
     [] d = "vhdr"     -> IF kind = "sse" THEN {"absent"} ELSE {"absent", "legacy", "badold", "new", "future"}
     [] d = "meta"     -> IF kind = "sse" THEN {"absent"} ELSE {"absent", "eq", "neNew", "neLegacy"}
     [] d \in {"mm", "mn", "mp"} ->
@@ -98,7 +99,7 @@ ExpectedStreamable(c) ==
   ELSE IF c.ctype \in BadCT THEN R(415, 0)                                \* serveStateless / serveStatefulPOST
   ELSE IF c.accept \in BadAccept THEN R(400, 0)
   ELSE IF c.body = "oversize" THEN R(413, 0)                              \* ephemeralConnectOpts / servePOST read
-  ELSE IF c.body \in {"empty", "malformed"} THEN R(400, 0)                \* servePOST
+  ELSE IF c.body \in {"empty", "malformed"} THEN R(400, 0)                \* servePOST ("trailing": the decoder stops after the first value)
   ELSE IF (c.vhdr \in {"new", "future"} \/ c.meta # "absent") /\ c.kind = "stateful" THEN R(400, CodeUnsupportedVersion)
   ELSE IF (c.vhdr \in {"new", "future"} \/ c.meta # "absent") /\ c.vhdr = "absent" THEN R(400, CodeMismatch)
   ELSE IF (c.vhdr \in {"new", "future"} \/ c.meta # "absent") /\ c.meta = "absent" THEN R(400, CodeInvalidParams)
@@ -131,7 +132,7 @@ HasFault(c, f) ==
     [] f = "ctype"     -> c.ctype \in BadCT
     [] f = "accept"    -> c.kind # "sse" /\ c.accept \in BadAccept
     [] f = "size"      -> c.kind # "sse" /\ c.body = "oversize"
-    [] f = "body"      -> c.body \in {"empty", "malformed"}
+    [] f = "body"      -> c.body \in {"empty", "malformed", "trailing"}
     [] f = "version"   -> c.kind # "sse" /\ (~Supported(c.kind, c.vhdr) \/ ~Supported(c.kind, MetaVer(c)))
     [] f = "mirrorver" -> c.kind # "sse" /\ NewProto(c) /\ c.meta # "eq"
     [] f = "mm"        -> Enforced(c) /\ c.mm \in Unequal
